@@ -14,13 +14,15 @@ BOUNDS = {"quick": [dict(K=3, obs=1, pre=2, to=1), dict(K=2, obs=2, pre=1, to=1,
                     dict(K=4, obs=1, pre=1, to=1, flags=(False, True)),
                     dict(K=3, obs=1, pre=1, to=1, spw=2), dict(K=3, obs=1, pre=1, to=1, nojoin=True),
                     dict(K=70, obs=1, pre=0, to=1, loud=True), dict(K=260, obs=1, pre=0, to=1, loud=True),
-                    dict(K=2, obs=1, pre=1, to=1, bad=True), dict(K=3, obs=1, pre=1, to=1, manual=True, onstart=True)],
+                    dict(K=2, obs=1, pre=1, to=1, bad=True), dict(K=3, obs=1, pre=1, to=1, manual=True, onstart=True),
+                    dict(K=6, obs=1, pre=0, to=0, alias="eth"), dict(K=6, obs=1, pre=0, to=0, alias="energy_threshold")],
           "thorough": [dict(K=6, obs=1, pre=2, to=2), dict(K=3, obs=2, pre=2, to=1, log=True), dict(K=5, obs=1, pre=3, to=1), dict(K=2, obs=3, pre=1, to=0), dict(K=3, obs=3, pre=0, to=1),
                        dict(K=7, obs=1, pre=1, to=1, log=True), dict(K=3, obs=1, pre=2, to=1, log=True, printer=True),
                        dict(K=4, obs=1, pre=2, to=1, onstart=True, flags=(True, False)), dict(K=5, obs=1, pre=1, to=1, flags=(False, True)),
                        dict(K=4, obs=1, pre=2, to=1, spw=2), dict(K=3, obs=2, pre=1, to=1, spw=2), dict(K=4, obs=1, pre=2, to=1, nojoin=True), dict(K=2, obs=2, pre=1, to=1, nojoin=True),
                        dict(K=70, obs=2, pre=0, to=1, loud=True), dict(K=100, obs=1, pre=1, to=0, loud=True), dict(K=600, obs=1, pre=0, to=1, loud=True),
-                       dict(K=2, obs=2, pre=2, to=1, bad=True), dict(K=4, obs=1, pre=2, to=1, manual=True, onstart=True), dict(K=3, obs=2, pre=1, to=1, manual=True, onstart=True)]}
+                       dict(K=2, obs=2, pre=2, to=1, bad=True), dict(K=4, obs=1, pre=2, to=1, manual=True, onstart=True), dict(K=3, obs=2, pre=1, to=1, manual=True, onstart=True),
+                       dict(K=11, obs=2, pre=1, to=0, alias="eth"), dict(K=11, obs=1, pre=1, to=1, alias="energy_threshold")]}
 
 
 class RecLogger:
@@ -51,6 +53,16 @@ def audio_and_kw(K, flags, spw, loud=False):
     return data, skw
 
 
+ALIAS_ETH = 30
+
+
+def energy_audio(K):
+    """concrete 16-bit windows whose energy is about 60, 40 and -infinity dB in turn: with the threshold ALIAS_ETH (30) the 40 dB windows
+    are active, with the default threshold (50) they are not - a worker that loses the threshold keyword finds other detections"""
+    import struct
+    return b"".join(struct.pack("<h", (1000, 100, 0, 100, 0)[k % 5]) for k in range(K))
+
+
 def run_main(s, tw, allobs, obs, nojoin, manual=False):
     """what the main thread does after building the workers"""
     if manual:
@@ -71,17 +83,19 @@ def run_main(s, tw, allobs, obs, nojoin, manual=False):
             all(t.finished for t in s.threads), killed)
 
 
-def harness(L, K, nobs, max_pre, max_to, log=False, printer=False, onstart=False, flags=(False, False), spw=1, nojoin=False, loud=False, bad=False, manual=False):
+def harness(L, K, nobs, max_pre, max_to, log=False, printer=False, onstart=False, flags=(False, False), spw=1, nojoin=False, loud=False, bad=False, manual=False, alias=None):
     W, core, util = L.modules["workers"], L.modules["core"], L.modules["util"]
     Obs = thr.make_observer_class(W)
     data, skw = audio_and_kw(K, flags, spw, loud)
+    if alias:
+        data = energy_audio(K)
 
     def path(e):
         s = S.Sched(e, max_timeouts=max_to, max_preempt=max_pre)
         s.yield_on_start = onstart
         s.max_steps = max(s.max_steps, 60 * K)
         val = (lambda frame: True) if loud else thr.window_validator(data, spw)
-        meta = dict(K=K, obs=nobs, pre=max_pre, to=max_to, log=log, printer=printer, onstart=onstart, flags=list(flags), spw=spw, nojoin=nojoin, loud=loud, bad=bad, manual=manual)
+        meta = dict(K=K, obs=nobs, pre=max_pre, to=max_to, log=log, printer=printer, onstart=onstart, flags=list(flags), spw=spw, nojoin=nojoin, loud=loud, bad=bad, manual=manual, alias=alias)
         if bad:
             skw_ = dict(skw, min_dur=skw["max_dur"] * 2)      # min_dur > max_dur: not a valid parameter set
         else:
@@ -98,7 +112,7 @@ def harness(L, K, nobs, max_pre, max_to, log=False, printer=False, onstart=False
                 W.print = lambda *a, **k: printed.append(" ".join(str(x) for x in a))
                 allobs.append(W.PrintWorker("{id} {start} {end}", "%S"))
             try:
-                tw = W.TokenizerWorker(reader, allobs, logger=RecLogger() if log else None, validator=val, **skw_)
+                tw = W.TokenizerWorker(reader, allobs, logger=RecLogger() if log else None, **dict(skw_, **({alias: ALIAS_ETH} if alias else {"validator": val})))
             except ValueError:
                 tw = None
             if tw is None:
@@ -118,7 +132,12 @@ def harness(L, K, nobs, max_pre, max_to, log=False, printer=False, onstart=False
             if not fails:
                 return {"status": "ok", "outcome": outcome[0]}
             return {"status": "cex", "failing": fails[:2], "cex": mk(e.model(), meta, s)}
-        want = sig(list(core.split(data, sr=thr.SR, sw=thr.SW, ch=thr.CH, analysis_window=0.1 * spw, validator=(lambda frame: True) if loud else thr.window_validator(data, spw), **skw)))
+        if alias:
+            want = sig(list(core.split(data, sr=thr.SR, sw=thr.SW, ch=thr.CH, analysis_window=0.1 * spw, **dict(skw, **{alias: ALIAS_ETH}))))
+            if len(want) < 2:
+                raise AssertionError("alias configuration: the reference split() finds %d detections, at least 2 expected" % len(want))
+        else:
+            want = sig(list(core.split(data, sr=thr.SR, sw=thr.SW, ch=thr.CH, analysis_window=0.1 * spw, validator=(lambda frame: True) if loud else thr.window_validator(data, spw), **skw)))
         fails = judge(outcome, want)
         if printer and not fails:
             exp = ["%d %.3f %.3f" % (i, a / thr.SR, b / thr.SR) for i, (a, b, _) in enumerate(want, 1)]
@@ -158,7 +177,7 @@ def judge(outcome, want):
 
 def mk(m, meta, s):
     c = dict(meta)
-    c["valid"] = [True] * meta["K"] if meta.get("loud") else thr.bits_from_model(m, meta["K"]) if m is not None else [False] * meta["K"]
+    c["valid"] = [True] * meta["K"] if (meta.get("loud") or meta.get("alias")) else thr.bits_from_model(m, meta["K"]) if m is not None else [False] * meta["K"]
     c["schedule"] = [list(x) for x in s.log]
     return c
 
@@ -176,6 +195,9 @@ def replay_fn(c):
     spw = c.get("spw", 1)
     loud = bool(c.get("loud"))
     data, skw = audio_and_kw(K, fl, spw, loud)
+    alias = c.get("alias")
+    if alias:
+        data = energy_audio(K)
     val = (lambda frame: True) if loud else thr.concrete_validator(data, c["valid"], spw)
     s = S.Sched(None, max_timeouts=c["to"] + 50, max_preempt=10 ** 6)
     s.yield_on_start = bool(c.get("onstart"))
@@ -192,7 +214,7 @@ def replay_fn(c):
             allobs.append(W.PrintWorker("{id} {start} {end}", "%S"))
         skw_ = dict(skw, min_dur=skw["max_dur"] * 2) if c.get("bad") else skw
         try:
-            tw = W.TokenizerWorker(reader, allobs, logger=RecLogger() if c.get("log") else None, validator=val, **skw_)
+            tw = W.TokenizerWorker(reader, allobs, logger=RecLogger() if c.get("log") else None, **dict(skw_, **({alias: ALIAS_ETH} if alias else {"validator": val})))
         except ValueError:
             tw = None
         if tw is None:
@@ -211,7 +233,10 @@ def replay_fn(c):
         if why is None:
             return []
         return [("C12: workers built with invalid parameters do not come to an end", "min_dur > max_dur, %d observer(s), schedule %s: %s" % (c["obs"], compact(c["schedule"]), why))]
-    want = sig(list(core.split(data, sr=thr.SR, sw=thr.SW, ch=thr.CH, analysis_window=0.1 * spw, validator=(lambda frame: True) if loud else thr.concrete_validator(data, c["valid"], spw), **skw)))
+    if alias:
+        want = sig(list(core.split(data, sr=thr.SR, sw=thr.SW, ch=thr.CH, analysis_window=0.1 * spw, **dict(skw, **{alias: ALIAS_ETH}))))
+    else:
+        want = sig(list(core.split(data, sr=thr.SR, sw=thr.SW, ch=thr.CH, analysis_window=0.1 * spw, validator=(lambda frame: True) if loud else thr.concrete_validator(data, c["valid"], spw), **skw)))
     fails = judge(outcome, want)
     if c.get("printer") and not fails:
         exp = ["%d %.3f %.3f" % (i, a / thr.SR, b / thr.SR) for i, (a, b, _) in enumerate(want, 1)]
@@ -251,9 +276,9 @@ def run(rep):
     for cf in cfgs:
         hn = "sched[K=%d,obs=%d,pre=%d,to=%d%s%s%s%s%s%s]" % (cf["K"], cf["obs"], cf["pre"], cf["to"], ",logger" if cf.get("log") else "", ",PrintWorker" if cf.get("printer") else "",
                                                             ",start-is-a-scheduling-point" if cf.get("onstart") else "", ",flags=%s" % (cf["flags"],) if cf.get("flags") else "",
-                                                            ",2-sample windows with a partial last one" if cf.get("spw", 1) > 1 else "", ",main thread returns without joining" if cf.get("nojoin") else "") + (",every window a detection" if cf.get("loud") else "") + (",min_dur > max_dur" if cf.get("bad") else "") + (",tokenizer started before the observers" if cf.get("manual") else "")
+                                                            ",2-sample windows with a partial last one" if cf.get("spw", 1) > 1 else "", ",main thread returns without joining" if cf.get("nojoin") else "") + (",every window a detection" if cf.get("loud") else "") + (",min_dur > max_dur" if cf.get("bad") else "") + (",tokenizer started before the observers" if cf.get("manual") else "") + (",energy detection with %s=%d instead of a validator" % (cf["alias"], ALIAS_ETH) if cf.get("alias") else "")
         ex = explore(harness(L, cf["K"], cf["obs"], cf["pre"], cf["to"], cf.get("log", False), cf.get("printer", False), cf.get("onstart", False),
-                             tuple(cf.get("flags", (False, False))), cf.get("spw", 1), cf.get("nojoin", False), cf.get("loud", False), cf.get("bad", False), cf.get("manual", False)),
+                             tuple(cf.get("flags", (False, False))), cf.get("spw", 1), cf.get("nojoin", False), cf.get("loud", False), cf.get("bad", False), cf.get("manual", False), cf.get("alias")),
                      max_decisions=3000, path_wall_s=30)
         rep.add_exploration(hn, ex, bounds=cf)
         tok.handle_cex(rep, hn, ex, replay_fn)
